@@ -199,19 +199,17 @@ retry_fetch_lv:
             }
 
             value* v = value::create_value<kIsInline>(v_ptr, v_len, v_align);
-            if constexpr (kIsInline) {
-                lv_ptr->set_value(v, created_v_ptr);
-                target_border->version_unlock();
-            } else {
-                value* old_v = nullptr;
-                lv_ptr->set_value(v, created_v_ptr, &old_v);
-                target_border->version_unlock();
-                auto* thin = reinterpret_cast<thread_info*>(token); // NOLINT
-                if (old_v != nullptr) {
-                    auto [o_ptr, o_len, o_align] = value::get_gc_info(old_v);
-                    thin->get_gc_info().push_value_container(
-                            {thin->get_begin_epoch(), o_ptr, o_len, o_align});
-                }
+            // the slot may hold an out-of-line value even if ValueType is inlinable
+            // (the key may have been written with another value type): readers may
+            // still use the displaced block, so it is always retired, never freed here.
+            value* old_v = nullptr;
+            lv_ptr->set_value(v, created_v_ptr, &old_v);
+            target_border->version_unlock();
+            auto* thin = reinterpret_cast<thread_info*>(token); // NOLINT
+            if (old_v != nullptr) {
+                auto [o_ptr, o_len, o_align] = value::get_gc_info(old_v);
+                thin->get_gc_info().push_value_container(
+                        {thin->get_begin_epoch(), o_ptr, o_len, o_align});
             }
             return status::OK;
         }
